@@ -155,3 +155,52 @@ pub fn run(ctx: &Ctx, st: &mut Stats) {
     }
     st.extra.insert("rule".into(), json!("fixed product (9 methods x 15 policies x hostile latitudes x 6 dates) + seeded hostile random over every numeric field; non-trivial = returned map contains an Invalid or an extreme entry (fallback machinery ran); distinct by input hash; liveness restated as bounded progress: a call that burns >20 CPU-seconds (about 200x the slowest legitimate call) is a stall"));
 }
+
+/// Cold start under concurrency: a FRESH process in which `threads` threads, released together by a barrier, make
+/// their first library calls at once (high latitude near the solstice under the default policy: the longest code
+/// path). Lazy initialisation that is not thread-safe only shows here. Exit code 0 = every call returned a
+/// 7-entry map, 10 = a call panicked (message on stdout).
+pub fn coldstart(threads: usize, seed: u64) -> i32 {
+    use std::sync::{Arc, Barrier};
+    let barrier = Arc::new(Barrier::new(threads));
+    let mut hs = vec![];
+    for t in 0..threads {
+        let b = barrier.clone();
+        hs.push(std::thread::spawn(move || {
+            let mut r = Rng::new(seed, 777, t as u64);
+            let la = r.range(60.0, 70.0) * r.sign();
+            let lon = r.range(-180.0, 180.0);
+            let l = loc(la, lon, 0.0, (lon / 15.0).round().clamp(-12.0, 12.0));
+            let y = r.int(1600, 2399) as i32;
+            let d = if la > 0.0 { ymd(y, 6, r.int(10, 30) as u32) } else { ymd(y, 12, r.int(10, 31) as u32) };
+            let p = Params::new(METHODS[r.int(1, 8) as usize]);
+            b.wait();
+            let mut out = vec![];
+            for k in 0..3 {
+                let dd = from_ce(ce(d) + k);
+                match super::guarded(|| prayer_times_dt(&p, l, dd, None)) {
+                    Ok(m) => {
+                        if m.len() != 7 {
+                            out.push(format!("{} entries", m.len()));
+                        }
+                    }
+                    Err(pm) => out.push(format!("lat {la:.3} lon {lon:.3} date {dd}: {pm}")),
+                }
+            }
+            out
+        }));
+    }
+    let mut bad = vec![];
+    for h in hs {
+        match h.join() {
+            Ok(v) => bad.extend(v),
+            Err(_) => bad.push("thread died".into()),
+        }
+    }
+    if bad.is_empty() {
+        0
+    } else {
+        println!("{}", serde_json::json!({"failures": bad}));
+        10
+    }
+}
